@@ -58,9 +58,12 @@ def gen_case(ctx: Ctx, traced=False):
         planes = sorted(rng.sample(range(n), rng.randint(1, n)))
         spec = ([-1] if rng.random() < 0.5 else []) + planes
     seeds = rng.sample(range(1, 10 ** 6), ncfg)
-    builder = rng.choice(["plane", "probe"])
-    det = rng.choice(["waves", "pixelated"] if builder == "plane" else ["waves", "annular", "flexible", "pixelated"])
-    scan = [[dyadic(rng, 0, 3.5, 2), dyadic(rng, 0, 3.5, 2)] for _ in range(rng.randint(1, 2))] if builder == "probe" else None
+    builder = rng.choice(["plane", "probe", "probe", "prism"])
+    det = rng.choice(["waves", "pixelated"] if builder == "plane" else ["pixelated", "annular"] if builder == "prism"
+                     else ["waves", "annular", "flexible", "pixelated"])
+    scan = [[dyadic(rng, 0, 3.5, 2), dyadic(rng, 0, 3.5, 2)] for _ in range(rng.randint(1, 2))] if builder != "plane" else None
+    if builder == "prism":
+        kind, spec = "none", None  # SMatrix (abtem/prism/s_matrix.py): one exit plane
     return dict(nslices=n, atoms=atoms, spec=spec, seeds=seeds, sigma=rng.choice([0.05, 0.1, 0.2]), builder=builder, det=det,
                 scan=scan, gpts=rng.choice([8, 12]), lazy=rng.random() < 0.5, kind=rng.choice(["frozen", "frozen", "atoms_ensemble"]),
                 mean=(rng.random() < 0.35 and det != "waves"), directions=rng.choice(["xyz", "xy"]))
@@ -81,6 +84,11 @@ def _run(c, potential, lazy=False):
     det = _detector(c)
     if c["builder"] == "plane":
         r = abtem.PlaneWave(**kw).multislice(potential, detectors=det, lazy=lazy)
+    elif c["builder"] == "prism":
+        if c["det"] == "annular":
+            det = abtem.AnnularDetector(inner=5, outer=25)
+        r = abtem.SMatrix(potential=potential, energy=100e3, semiangle_cutoff=25, interpolation=1).scan(
+            scan=abtem.CustomScan(np.array(c["scan"])), detectors=det, lazy=lazy)
     else:
         r = abtem.Probe(semiangle_cutoff=30, **kw).multislice(potential, scan=abtem.CustomScan(np.array(c["scan"])),
                                                               detectors=det, lazy=lazy)
